@@ -14,7 +14,10 @@ RULE = (
 )
 ASSUMPTIONS = ["default schedule inside histories", "unmodified outputs only (user edits are C06)"]
 
-FAMILIES = ["f_vol", "f_optional", "f_chain", "f_subplan", "f_redefine", "f_selfprod", "f_glob", "f_amend"]
+FAMILIES = ["f_vol", "f_optional", "f_chain", "f_subplan", "f_redefine", "f_selfprod", "f_glob", "f_amend",
+            "f_dynout"]
+# families whose histories also contain two simultaneous edits before one build
+PAIR_FAMILIES = ("f_dynout",) 
 CFG = {"njob": 2}
 
 
@@ -23,9 +26,13 @@ def jobs(tier, seed):
     out = []
     for fam in FAMILIES:
         start = {"fam": fam, "knobs": {}}
-        for elabel, d in hist.knob_edits(start):
+        for elabel, d in edits_for(fam)(start):
             out.append({"start": start, "first": (elabel, d), "depth": depth})
     return out
+
+
+def edits_for(fam):
+    return hist.knob_and_pair_edits if fam in PAIR_FAMILIES else hist.knob_edits
 
 
 def held_by_attached(obs):
@@ -61,8 +68,13 @@ def analyse(obs_list, scratch):
             written.update(w[1] for w in p["writes"])
     out = {}
     orphans = sorted(k for k in last.fs if k not in scratch.fs)
-    orphan_files = [k for k in orphans if last.fs[k] != "dir" and k in written]
-    orphan_dirs = [k for k in orphans if last.fs[k] == "dir"]
+    # "unless an active step still uses it as an input"
+    used = {p for s, ins in last.db_inputs.items() if not last.db_steps.get(s, {}).get("detached")
+            for p, _ in ins}
+    orphan_files = [k for k in orphans if last.fs[k] != "dir" and k in written and k not in used]
+    kept_dirs = {k.rsplit("/", 1)[0] + "/" for k in used if "/" in k}
+    orphan_dirs = [k for k in orphans if last.fs[k] == "dir"
+                   and not any(kd.startswith(k if k.endswith("/") else k + "/") for kd in kept_dirs)]
     if orphan_files:
         out["orphan-file"] = orphan_files
     if orphan_dirs:
@@ -123,7 +135,7 @@ def run_job(spec):
         acc.sample({"family": fam, "edits": labels, "written_earlier": sorted(written)[:8],
                     "removed": [r[1] for r in last.reports if r[0] == "REMOVE"]})
 
-    nrun, nstates, trunc = hist.bfs(spec["start"], spec["depth"], hist.knob_edits, visit, CFG,
+    nrun, nstates, trunc = hist.bfs(spec["start"], spec["depth"], edits_for(spec["start"]["fam"]), visit, CFG,
                                     first=spec["first"])
     acc.count("histories", nrun)
     return acc
